@@ -13,11 +13,11 @@ cleanup() { for i in $(seq 1 $N); do git -C /repo worktree remove --force $W/w$i
 trap cleanup EXIT
 for i in $(seq 1 $N); do git -C /repo worktree add --detach $W/w$i HEAD -q || exit 2; done
 if [ "$MODE" = seeded ]; then LIST=$(ls -d /verif/seeded/C??-? | sort); else LIST=$(ls $ROOT/*/patch.diff | sort -V); fi
-i=0; for x in $LIST; do i=$((i%N+1)); echo "$x" >> $W/list.$i; done
+i=0; k=0; for x in $LIST; do i=$((i%N+1)); k=$((k+1)); echo "$k $x" >> $W/list.$i; done; mkdir -p $W/res
 worker() {
   wt=$W/w$1
   [ -f $W/list.$1 ] || return
-  while read x; do
+  while read k x; do
     if [ "$MODE" = seeded ]; then
       id=$(basename $x); prop=${id%-*}
       ( cd $wt && git apply $x/patch.diff ) || { echo "$id|$prop|noapply|" >> $W/out.$1; continue; }
@@ -26,10 +26,10 @@ worker() {
       rules=$(grep -A1 '^VIOLATION' $W/$id.out | grep -o 'rule=[A-Z]*-[0-9]*' | sort -u | sed 's/rule=//' | tr '\n' ' ')
       echo "$id|$prop|$rc|$rules" >> $W/out.$1
     else
-      ( cd $wt && git apply $x ) || { echo "ERROR $x patch does not apply" >> $W/out.$1; continue; }
+      ( cd $wt && git apply $x ) || { echo "ERROR $x patch does not apply" > $W/res/$(printf %04d $k); continue; }
       o=$(${MOWCHECK:-/verif/bin/mowcheck} -repo $wt -rules all 2>&1 | grep -v '^discharged' | grep -v 'VAL-4 *values.setMultivalued:Clear-before-validation' | grep -v 'FSM-8 .*\(env-fallback\|non-consuming\)\]')
       ( cd $wt && git checkout -q -- . && git clean -fdq )
-      if [ -n "$o" ]; then { echo "FALSE-ALARM $x"; echo "$o" | cut -c1-300 | sed 's/^/    /'; } >> $W/out.$1; else echo "quiet       $x" >> $W/out.$1; fi
+      if [ -n "$o" ]; then { echo "FALSE-ALARM $x"; echo "$o" | cut -c1-300 | sed 's/^/    /'; } > $W/res/$(printf %04d $k); else echo "quiet       $x" > $W/res/$(printf %04d $k); fi
     fi
   done < $W/list.$1
 }
@@ -52,6 +52,6 @@ PY
   echo >> $OUT; echo "not reported by the property's own check: $missed" >> $OUT
   tail -1 $OUT
 else
-  cat $W/out.* | sort -V
-  echo "false alarms: $(cat $W/out.* | grep -c '^FALSE-ALARM\|^ERROR')"
+  cat $W/res/*
+  echo "false alarms: $(cat $W/res/* | grep -c '^FALSE-ALARM\|^ERROR')"
 fi
